@@ -1351,6 +1351,15 @@ def numOr (v : Value) : Float := match v with | .num x => x | _ => 0.0 / 0.0
 /-- the numbers in cell `a` (NaN for an element that is not a number) -/
 def numsAt (σ : St) (a : Nat) : Option (List Float) := (getList σ a).map (·.map numOr)
 
+/-- the expression `z <- x` evaluates (so `assign_from_variable_frame` is not vacuous), and `x` sees what it saw -/
+example : expr cfg0 2 (.assign ['z'] tk (.var ['x'] tk) tk) σ0 = .ok (.list 0, setCell σ0 1 (.list vs0)) := by
+  rw [expr_assign_var cfg0 0 ['z'] ['x'] tk tk tk σ0 _ hx0]
+  exact (assign_existing_list_copies ['z'] 0 1 vs0 [.num 7] σ0 hz0 (by decide) hl1 hl0).1
+example : seenThrough (setCell σ0 1 (.list vs0)) ['x'] = seenThrough σ0 ['x'] :=
+  (assign_from_variable_frame cfg0 0 ['z'] ['x'] tk tk tk σ0 _ (.list 0) (by
+    rw [expr_assign_var cfg0 0 ['z'] ['x'] tk tk tk σ0 _ hx0]
+    exact (assign_existing_list_copies ['z'] 0 1 vs0 [.num 7] σ0 hz0 (by decide) hl1 hl0).1)).1
+
 /-- first assignment shares (`b` is `a`'s cell 0: the write through `b` and the APPEND through `a` land in the
 same cell); assignment to `c`, which already holds a list, copies into `c`'s own cell 1, and a later write
 through `c` does not reach `a` -/
